@@ -1253,6 +1253,9 @@ def huge_literal_programs():
         for e in ["a+1e999", "a<1e999", "a*1e999", "1e999-a", "a>-1e999", "a-(1e308*10)", "+/a+1e999", "a=1e999", "-1e999+a"]:
             progs.append([("a::" + v, False), (e, True)])
         progs.append([("h::{x+1e999}", False), ("h(%s)" % v, True)])
+        # literals whose text needs every digit (the emitted source must reproduce the value exactly)
+        for e in ["a+0.123456789", "a*1234567.5", "a+100000001", "a-0.1", "a*1.0e-7", "a+123456789012", "a<0.30000000000000004"]:
+            progs.append([("a::" + v, False), (e, True)])
     return progs
 
 
